@@ -24,7 +24,7 @@ import (
 func init() {
 	Registry["C13"] = &Check{
 		Scenarios: c13Scenarios,
-		Rule: "client side: MaxRetransmits R in {0,1,2}, WatchdogInterval 3 s, RetransmitInterval 1 s on the virtual clock; the peer's reaction to the n-th DWR transmission is scripted from {success DWA after 0, 1/2 or 1 interval (1 = exact tie with the retransmission timer), DWA 5012 at once, silence}; all scripts of length <=2 (thorough 3), silence afterwards, so every run ends with the watchdog closing the connection; every schedule of watchdog thread, reader, timers and peer up to preemption bound 2 (thorough: unbounded for scripts of length <=1); peer steps and due timers are free transitions, so every ordering of answer / timer / reader is explored already at bound 0. Oracle: the observed (time, hop-by-hop id) sequence of DWRs and the close time must be one of the timelines of a reference model (branching only at exact ties). Server side: for every DWR from a handshaken peer over {both identity AVPs, Origin-Host missing, Origin-Realm missing, with Origin-State-Id} x ids {0,1,2^31,2^32-1}^2 the state machine must answer a success DWA with the local identity and the request's ids.",
+		Rule: "client side: MaxRetransmits R in {0,1,2}, WatchdogInterval 3 s, RetransmitInterval 1 s on the virtual clock; the peer's reaction to the n-th DWR transmission is scripted from {success DWA after 0, 1/2 or 1 interval (1 = exact tie with the retransmission timer), DWA 5012 at once, silence}, plus five burst scripts with answers delayed by 3/2 and 5/2 intervals (several late answers landing inside one later waiting window); all scripts of length <=2 (thorough 3), silence afterwards, so every run ends with the watchdog closing the connection; every schedule of watchdog thread, reader, timers and peer up to preemption bound 2 (thorough: unbounded for scripts of length <=1); peer steps and due timers are free transitions, so every ordering of answer / timer / reader is explored already at bound 0. Oracle: the observed (time, hop-by-hop id) sequence of DWRs and the close time must be one of the timelines of a reference model (branching only at exact ties). Server side: for every DWR from a handshaken peer over {both identity AVPs, Origin-Host missing, Origin-Realm missing, with Origin-State-Id} x ids {0,1,2^31,2^32-1}^2 the state machine must answer a success DWA with the local identity and the request's ids.",
 		Assume: []string{"virtual time: writes and computation take no time", "data-race freedom between visible operations (audited separately with -race)"},
 		QuickBudget: 150, ThoroughBudget: 2400,
 	}
@@ -90,6 +90,21 @@ func c13Scenarios(tier string) []*Scenario {
 			out = append(out, c13Scenario(R, sc, b))
 		}
 	}
+	// late answers that arrive in a burst during a later transmission's window, then silence
+	bursts := [][]string{{"ok5H", "ok3H", "ok0"}, {"ok5H", "ok3H", "okH"}}
+	burstBound := 0 // answers, timers and the reader are free transitions: every ordering of the burst is explored at bound 0
+	if thorough {
+		bursts = append(bursts, []string{"ok3H", "okH"}, []string{"ok3H", "ok3H", "sil", "ok0"}, []string{"ok5H", "sil", "okH"})
+		burstBound = 1
+	}
+	for _, sc := range bursts {
+		for R := 1; R <= 2; R++ {
+			if !thorough && R == 1 {
+				continue
+			}
+			out = append(out, c13Scenario(R, sc, burstBound))
+		}
+	}
 	out = append(out, &Scenario{Name: "server/dwr-grid", Seq: c13Server})
 	return out
 }
@@ -101,7 +116,30 @@ type c13TL struct {
 	closeAt time.Duration
 }
 
-// c13Model returns every timeline the statement allows for a script.
+// c13Delay is the delay of a success answer in half RetransmitIntervals (-1: not an acknowledgement).
+func c13Delay(a string) int {
+	switch a {
+	case "ok0":
+		return 0
+	case "okH":
+		return 1
+	case "ok1":
+		return 2
+	case "ok3H":
+		return 3
+	case "ok5H":
+		return 5
+	}
+	return -1
+}
+
+// c13Model returns every timeline the statement allows for a script. It is a small
+// discrete-event simulation of the statement (not of the code): a round transmits the same
+// request every RetransmitInterval, at most R+1 times; a success answer delivered while the
+// round is waiting ends it, and the next round starts one WatchdogInterval later; answers
+// delivered while nobody waits are stale and are ignored; a round that ends unanswered
+// closes the connection. Where an answer and a timer fall on the same instant both orders
+// are allowed (branching).
 func c13Model(R int, script []string) []c13TL {
 	var out []c13TL
 	act := func(i int) string {
@@ -110,56 +148,101 @@ func c13Model(R int, script []string) []c13TL {
 		}
 		return "sil"
 	}
-	var round func(start time.Duration, ridx, txIdx int, cur c13TL)
-	round = func(start time.Duration, ridx, txIdx int, cur c13TL) {
-		if len(cur.tx) > 40 {
-			return
-		}
-		var try func(i int, cur c13TL, txIdx int)
-		try = func(i int, cur c13TL, txIdx int) {
-			at := start + time.Duration(i)*c13I
-			cur.tx = append(append([]time.Duration{}, cur.tx...), at)
-			cur.round = append(append([]int{}, cur.round...), ridx)
-			a := act(txIdx)
-			txIdx++
-			last := i == R
-			switch a {
-			case "ok0":
-				round(at+c13W, ridx+1, txIdx, cur)
-			case "okH":
-				round(at+c13I/2+c13W, ridx+1, txIdx, cur)
-			case "ok1":
-				// exact tie between the acknowledgement and the retransmission timer
-				// A: acknowledgement first
-				round(at+c13I+c13W, ridx+1, txIdx, cur)
-				// B: timer first
-				if last {
-					c := cur
-					c.closeAt = at + c13I
-					out = append(out, c)
-				} else {
-					// one more transmission at the same instant, then the pending
-					// acknowledgement ends the round
-					c := cur
-					c.tx = append(append([]time.Duration{}, c.tx...), at+c13I)
-					c.round = append(append([]int{}, c.round...), ridx)
-					// the extra transmission consumes a script entry; whatever it is, the
-					// round is already acknowledged at this instant
-					round(at+c13I+c13W, ridx+1, txIdx+1, c)
-				}
-			default: // "bad", "sil": not an acknowledgement
-				if last {
-					c := cur
-					c.closeAt = at + c13I
-					out = append(out, c)
-				} else {
-					try(i+1, cur, txIdx)
-				}
+	has := func(p []time.Duration, t time.Duration) bool {
+		for _, x := range p {
+			if x == t {
+				return true
 			}
 		}
-		try(0, cur, txIdx)
+		return false
 	}
-	round(c13W, 0, 0, c13TL{closeAt: -1})
+	without := func(p []time.Duration, upTo time.Duration) []time.Duration {
+		var q []time.Duration
+		for _, x := range p {
+			if x > upTo {
+				q = append(q, x)
+			}
+		}
+		return q
+	}
+	cp := func(t c13TL) c13TL {
+		return c13TL{tx: append([]time.Duration{}, t.tx...), round: append([]int{}, t.round...), closeAt: t.closeAt}
+	}
+	var round func(start time.Duration, ridx, txIdx int, pending []time.Duration, cur c13TL)
+	var send func(start time.Duration, ridx, i, txIdx int, pending []time.Duration, cur c13TL)
+	endRound := func(at time.Duration, ridx, txIdx int, pending []time.Duration, cur c13TL) {
+		// answers up to and including this instant are consumed or stale
+		round(at+c13W, ridx+1, txIdx, without(pending, at), cur)
+	}
+	round = func(start time.Duration, ridx, txIdx int, pending []time.Duration, cur c13TL) {
+		if len(cur.tx) > 30 {
+			return
+		}
+		// answers that arrived before the round started are stale
+		var p []time.Duration
+		tie := false
+		for _, x := range pending {
+			if x > start {
+				p = append(p, x)
+			} else if x == start {
+				tie = true
+			}
+		}
+		if tie {
+			// an answer landing exactly at the start of the round: dropped as stale, or kept and
+			// counted right after the first transmission
+			c := cp(cur)
+			c.tx = append(c.tx, start)
+			c.round = append(c.round, ridx)
+			np := append([]time.Duration{}, p...)
+			if d := c13Delay(act(txIdx)); d >= 0 {
+				np = append(np, start+time.Duration(d)*c13I/2)
+			}
+			endRound(start, ridx, txIdx+1, np, c)
+		}
+		send(start, ridx, 0, txIdx, p, cur)
+	}
+	send = func(start time.Duration, ridx, i, txIdx int, pending []time.Duration, cur c13TL) {
+		t := start + time.Duration(i)*c13I
+		if i > 0 && has(pending, t) {
+			// an answer lands exactly when the retransmission timer fires. A: answer first
+			endRound(t, ridx, txIdx, pending, cp(cur))
+			// B: timer first - transmit, then the answer ends the round at the same instant
+		}
+		cur = cp(cur)
+		cur.tx = append(cur.tx, t)
+		cur.round = append(cur.round, ridx)
+		pending = append([]time.Duration{}, pending...)
+		if d := c13Delay(act(txIdx)); d >= 0 {
+			pending = append(pending, t+time.Duration(d)*c13I/2)
+		}
+		txIdx++
+		if has(pending, t) {
+			endRound(t, ridx, txIdx, pending, cur)
+			return
+		}
+		// earliest answer inside the waiting window (t, t+I)
+		var first time.Duration = -1
+		for _, x := range pending {
+			if x > t && x < t+c13I && (first < 0 || x < first) {
+				first = x
+			}
+		}
+		if first >= 0 {
+			endRound(first, ridx, txIdx, pending, cur)
+			return
+		}
+		if i == R {
+			if has(pending, t+c13I) {
+				endRound(t+c13I, ridx, txIdx, pending, cp(cur)) // answer wins the tie with the final timer
+			}
+			cur.closeAt = t + c13I
+			out = append(out, cur)
+			return
+		}
+		send(start, ridx, i+1, txIdx, pending, cur)
+	}
+	round(c13W, 0, 0, nil, c13TL{closeAt: -1})
 	return out
 }
 
@@ -209,11 +292,8 @@ func c13Scenario(R int, script []string, bound int) *Scenario {
 						conn.Deliver(peerAnswer(req, 2001, false))
 					case "bad":
 						conn.Deliver(peerAnswer(req, 5012, false))
-					case "okH", "ok1":
-						d := c13I / 2
-						if a == "ok1" {
-							d = c13I
-						}
+					case "okH", "ok1", "ok3H", "ok5H":
+						d := time.Duration(c13Delay(a)) * c13I / 2
 						vs.GoNamed("peer-late-dwa", true, func() {
 							vs.TimeSleep(d)
 							vs.Event("peer: delivers delayed DWA")
@@ -293,7 +373,8 @@ func c13Scenario(R int, script []string, bound int) *Scenario {
 		st := c13st
 		return fmt.Sprintf("tx=%d closed=%v at %v", len(st.tx), st.conn.Closed, st.conn.ClosedAt)
 	}
-	return &Scenario{Name: fmt.Sprintf("watchdog/R%d/%v", R, script), Body: body, Check: check, Outcome: outcome, Bound: bound, Horizon: horizon}
+	return &Scenario{Name: fmt.Sprintf("watchdog/R%d/%v", R, script), Body: body, Check: check, Outcome: outcome, Bound: bound, Horizon: horizon,
+		Weight: len(script)*4 + R + map[bool]int{true: 20, false: 0}[len(script) >= 3]}
 }
 
 func c13Same(a, b c13TL) bool {
